@@ -454,7 +454,71 @@ func c17FinaliseUnderHandle(c *Ctx, seconds int) {
 	c.Res.CountN("conc", "under-handle-trials", trials)
 }
 
+// c17CloseDeadlock is the cache-level regression detector for D36 (Lean theorem d36_deadlock): a cache of capacity 1,
+// workers that Get and Release distinct keys — every Get evicts the previous node from inside lru.Promote, i.e.
+// calls Node.unRefExternal while holding r.mu for reading — and a Close after 1-5 ms.  Before the repair
+// unRefExternal read-locked r.mu again, which blocks for ever behind Close's announced r.mu.Lock() (71-100 % of
+// the rounds hung).  2 s in the quick tier, 20 s in the thorough tier (VERIF_C17_CLOSE_DEADLOCK=<seconds> overrides,
+// 0 disables); a round that does not finish within 10 s is reported under
+// cache.Close:unRefExternal-recursive-RLock:deadlock.
+func c17CloseDeadlock(c *Ctx, seconds int) {
+	deadline := time.Now().Add(time.Duration(seconds) * time.Second)
+	r := c.R.Fork()
+	rounds := 0
+	for time.Now().Before(deadline) {
+		rounds++
+		cc := cache.NewCache(cache.NewLRU(1))
+		var fin int32
+		done := make(chan struct{})
+		var wg sync.WaitGroup
+		const workers = 4
+		wg.Add(workers + 1)
+		for w := 0; w < workers; w++ {
+			go func(w int) {
+				defer wg.Done()
+				for k := uint64(0); ; k++ {
+					h := cc.Get(uint64(w), k, func() (int, cache.Value) { return 1, &c17StaleVal{n: &fin} })
+					if h == nil {
+						return // closed
+					}
+					h.Release()
+				}
+			}(w)
+		}
+		delay := time.Duration(1+r.Intn(5)) * time.Millisecond
+		go func() {
+			defer wg.Done()
+			time.Sleep(delay)
+			cc.Close(false)
+		}()
+		go func() { wg.Wait(); close(done) }()
+		select {
+		case <-done:
+		case <-time.After(10 * time.Second):
+			buf := make([]byte, 1<<20)
+			buf = buf[:runtime.Stack(buf, true)]
+			c.Res.Violate("cache.Close:unRefExternal-recursive-RLock:deadlock",
+				fmt.Sprintf("round %d: %d workers doing Get/Release on a cache of capacity 1 and a Close(false) after %v did not finish within 10 s:\n%s", rounds, workers, delay, blockedSummary(string(buf))),
+				map[string]interface{}{"kind": "targeted-stress", "round": rounds, "lean": "GoLevel.C17.d36_deadlock"})
+			c.Hung = true
+			c.Res.CountN("conc", "close-deadlock-rounds", rounds)
+			return
+		}
+	}
+	c.Res.CountN("conc", "close-deadlock-rounds", rounds)
+}
+
 func c17Concurrent(c *Ctx) {
+	dlSec := c.Scale(2, 20)
+	if sec, err := strconv.Atoi(os.Getenv("VERIF_C17_CLOSE_DEADLOCK")); err == nil {
+		dlSec = sec
+	}
+	if dlSec > 0 {
+		c17CloseDeadlock(c, dlSec)
+		if c.Hung {
+			return
+		}
+	}
 	staleSec := c.Scale(3, 60)
 	if sec, err := strconv.Atoi(os.Getenv("VERIF_C17_STALE")); err == nil {
 		staleSec = sec
